@@ -2,6 +2,7 @@
 //! with `--cfg flacenc_verif`) on generated cases and prints one protocol record per line.
 
 mod api;
+mod comp;
 mod gen;
 mod kernel;
 mod parser;
@@ -42,6 +43,7 @@ fn main() {
             stream::generate(seed, cases, max_samples, &focus, &mut out);
         }
         "api" => api::generate(seed, flag(&args, "--thorough"), &mut out),
+        "comp" => comp::generate(seed, cases, &mut out),
         "kernel" => kernel::generate(seed, cases, &mut out),
         "parser" => {
             let stride: usize = arg(&args, "--burst-stride", 8);
